@@ -225,7 +225,7 @@ def c20_3(ctx):
     if "cbor = cbor_encode(data)" in src and "hashlib.sha256(cbor).digest()" in src and "bc32encode(cbor)" in src:
         out.append(ctx.ok("bcur:bcur_encode", "payload = bc32(cbor(data)), digest = bc32(sha256(cbor(data)))", efn, emod, key="enc"))
     else:
-        out.append(ctx.bad("bcur:bcur_encode", "encoder does not hash the CBOR bytes it encodes", efn, emod, key="enc"))
+        out.append(ctx.err("bcur:bcur_encode", "encoder idiom (bc32(cbor), bc32(sha256(cbor))) not recognised", efn, emod))
     dsrc = ast.unparse(fn)
     if "hashlib.sha256(cbor).digest()" in dsrc and "cbor = bc32decode(data)" in dsrc and "return cbor_decode(cbor)" in dsrc:
         out.append(ctx.ok(spec, "decoder hashes the same CBOR bytes and unwraps them", fn, mod, key="dec"))
@@ -311,7 +311,7 @@ def c20_4(ctx):
     if "bcur_decode(data=''.join(payloads), checksum=global_checksum)" in src:
         out.append(ctx.ok(spec, "the joined payload is decoded against the shared digest", fn, mod, key="final-digest"))
     else:
-        out.append(ctx.bad(spec, "the joined payload is not decoded against the shared digest", fn, mod, key="final-digest"))
+        out.append(ctx.err(spec, "final decode of the joined payload against the shared digest not recognised", fn, mod))
     return out
 
 
